@@ -6,21 +6,22 @@ import (
 	"strings"
 
 	"verif/harness/model"
+	"verif/harness/spec"
 	"verif/harness/vh"
 )
 
 // runCase is a generate-compile-execute case: a program, its model and the driver setup.
 type runCase struct {
-	Conv     *model.Conv `json:"conv"`
-	Mode     string      `json:"mode"`
-	Values   int         `json:"values"`
-	Seed     uint64      `json:"seed"`
-	Sharing  bool        `json:"sharing,omitempty"`
-	Distinct bool        `json:"distinct,omitempty"`
-	Race     bool        `json:"race,omitempty"`
-	Funcs    []string    `json:"funcs,omitempty"`
-	Format   string      `json:"format,omitempty"`
-	Wrap     string      `json:"wrap,omitempty"`
+	Conv     *model.Conv         `json:"conv"`
+	Mode     string              `json:"mode"`
+	Values   int                 `json:"values"`
+	Seed     uint64              `json:"seed"`
+	Sharing  bool                `json:"sharing,omitempty"`
+	Distinct bool                `json:"distinct,omitempty"`
+	Race     bool                `json:"race,omitempty"`
+	Funcs    []string            `json:"funcs,omitempty"`
+	Format   string              `json:"format,omitempty"`
+	Wrap     string              `json:"wrap,omitempty"`
 	Enums    map[string][]string `json:"enums,omitempty"`
 	Global   []string            `json:"global,omitempty"`
 }
@@ -138,6 +139,26 @@ func convOpAt(c runCase, name string, path []string) string {
 	return ""
 }
 
+// namedNillable: "pkg.Name" of a declared type whose underlying type is a pointer, slice or map.
+func namedNillable(c runCase, name string) bool {
+	i := strings.LastIndex(name, ".")
+	if i < 0 || c.Conv == nil || c.Conv.Prog == nil {
+		return false
+	}
+	for _, pk := range c.Conv.Prog.Pkgs {
+		if pk.Name != name[:i] && pk.Key != name[:i] {
+			continue
+		}
+		for _, d := range pk.Types {
+			if d.Name == name[i+1:] && d.U != nil {
+				u := c.Conv.Prog.Underlying(d.U)
+				return u.K == spec.KPtr || u.K == spec.KSlice || u.K == spec.KMap
+			}
+		}
+	}
+	return false
+}
+
 // featuresOf derives the structural features of a failing case that known findings are
 // matched on (together with their failure pattern).
 func featuresOf(id string, c runCase, v runVerdict) []string {
@@ -154,7 +175,7 @@ func featuresOf(id string, c runCase, v runVerdict) []string {
 		}
 		if m := reZeroKept.FindStringSubmatch(v.Msg); m != nil {
 			srcType := m[3]
-			nillableKind := strings.HasPrefix(srcType, "*") || strings.HasPrefix(srcType, "[]") || strings.HasPrefix(srcType, "map[")
+			nillableKind := strings.HasPrefix(srcType, "*") || strings.HasPrefix(srcType, "[]") || strings.HasPrefix(srcType, "map[") || namedNillable(c, srcType)
 			op := convOpAt(c, m[1], strings.Split(strings.TrimPrefix(m[2], "."), "."))
 			if nillableKind && (op == "call" || op == "ref" || op == "method" || op == "toptr") {
 				// nil pointer / slice / map source whose conversion is not a plain nil-guarded
